@@ -639,3 +639,126 @@ def norm_nonneg(ctx):
                         ctx.violation(key, cl.loc(bi, si), 'scalar kernel stores %s: for p < o the entry goes negative '
                                       '(i32::saturating_sub clamps at i32::MIN, the SIMD kernels clamp at 0): '
                                       'configurations without SIMD diverge after 2 GiB' % (s,))
+
+
+# --------------------------------------------------------------------------- C14 TWIN-SLICES
+
+def _range_of(e):
+    """(base, start, end) of a range indexing expression: index(base, Range{s, e}) / get_unchecked(base, Range{s, e})."""
+    while e[0] in ('ref', 'deref'):
+        e = e[1]
+    if e[0] == 'call' and e[1].split('::')[-1] in ('index', 'get_unchecked', 'index_mut') and len(e[2]) == 2:
+        r = e[2][1]
+        if r[0] == 'agg' and str(r[1]).endswith('Range::Range') and len(r[2]) == 2:
+            return e[2][0], r[2][0], r[2][1]
+    return None
+
+
+def _strip0(e):
+    while e[0] == 'cast' or (e[0] == 'field' and e[2] == '0' and e[1][0] == 'bin'):
+        e = e[2] if e[0] == 'cast' else e[1]
+    return e
+
+
+@rule('TWIN-SLICES', ['C14'], configs=('def', 'nostd'), floor=1, thorough_configs=('std-noopt', 'nostd-opt'))
+def twin_slices(ctx):
+    """The match-extension helper exists in a checked and an unchecked variant (feature `optimization`). In
+    every configuration the two slices handed to the pairwise comparator are `buf[s1 .. s1+L]` and
+    `buf[s2 .. s2+L]` with one and the same L whose logical part is `limit - current_len`: a shorter second
+    slice silently caps the match length (the comparator takes min(len)) and the two builds emit different
+    streams for the same input."""
+    F = ctx.facts
+    n = 0
+    for f in F.fns:
+        if f.kind == 'closure' or f.self_adt:
+            continue
+        prov = None
+        for bi, t, c in f.calls():
+            gs = [g for g in F.resolve_callee(c) if g.kind == 'fn' and not g.self_adt and g.arg_count == 2 and
+                  g.local_ty(1) == '&[u8]' and g.local_ty(2) == '&[u8]' and g.d.get('output') == 'usize']
+            if not gs or len(t['args']) != 2:
+                continue
+            prov = prov or Prov(f)
+            a = [prov.operand(x, 0, '%d:T' % bi) for x in t['args']]
+            # slices may come through a tuple local: look at the aggregate fields
+            rs = []
+            for x in a:
+                r = _range_of(x)
+                rs.append(r)
+            n += 1
+            key = '%s:pairwise-slices' % f.key
+            if rs[0] is None or rs[1] is None:
+                ctx.violation(key, f.loc(bi), 'the comparator %s is not given two range slices `buf[s..s+L]` (got %s and %s): the '
+                              'compared length is no longer the same on both sides' % (gs[0].key, expr_str(a[0])[:50], expr_str(a[1])[:50]))
+                continue
+            lens = []
+            for base, s, e in rs:
+                e0 = _strip0(e)
+                if e0[0] == 'bin' and e0[1].startswith('Add') and expr_str(_strip0(e0[2])) == expr_str(_strip0(s)):
+                    lens.append(e0[3])
+                else:
+                    lens.append(None)
+            if lens[0] is None or lens[1] is None or expr_str(lens[0]) != expr_str(lens[1]):
+                ctx.violation(key, f.loc(bi), 'slice lengths differ: %s vs %s' % (
+                    expr_str(rs[0][2])[:60], expr_str(rs[1][2])[:60]))
+                continue
+            L = lens[0]
+            logical = [x for x in expr_walk(L) if x[0] == 'bin' and x[1].startswith('Sub') and
+                       _strip0(x[2])[0] == 'param' and _strip0(x[3])[0] == 'param']
+            if not logical:
+                ctx.violation(key, f.loc(bi), 'the common length %s is not derived from `limit - current_len`' % expr_str(L)[:70])
+                continue
+            lg = logical[0]
+            ctx.ok(key, f.loc(bi), 'both slices have length %s (logical part %s - %s)' % (
+                expr_str(L)[:60], _strip0(lg[2])[2], _strip0(lg[3])[2]))
+    if n == 0:
+        ctx.anchor_missing('pairwise slice comparator call')
+
+
+# --------------------------------------------------------------------------- C14 ASM-DISPATCH
+
+@rule('ASM-DISPATCH', ['C14'], configs=('def',), floor=1, thorough_configs=('nostd-opt',))
+def asm_dispatch(ctx):
+    """A hand-written assembly path that clamps its loads (it re-reads the last byte when the input runs out)
+    is only dispatched to when it cannot reach the clamp: the call is control dependent on a comparison
+    between the bytes left in the buffer (`buf().len()` and `pos()`) and a bound derived from the bit count.
+    Otherwise the portable path (which substitutes zero and keeps counting past the end) and the assembly
+    path decode a truncated chunk differently and the builds report different errors."""
+    from lzlint.core import control_conditions
+    F = ctx.facts
+    asm_fns = {f.path for f in F.fns if any(b['term']['k'] == 'asm' for b in f.blocks)}
+    if not asm_fns:
+        return ctx.anchor_missing('functions with inline assembly')
+    n = 0
+    for f in F.fns:
+        prov = None
+        for bi, t, c in f.calls():
+            gs = [g for g in F.resolve_callee(c) if g.path in asm_fns]
+            if not gs:
+                continue
+            g = gs[0]
+            # only assembly that loads through a clamped index is concerned
+            if not any('cmov' in b['term'].get('template', '') or 'csel' in b['term'].get('template', '')
+                       for b in g.blocks if b['term']['k'] == 'asm'):
+                continue
+            prov = prov or Prov(f)
+            n += 1
+            key = '%s:dispatch:%s' % (f.key, g.name)
+            conds = [x for _, x in control_conditions(f, bi, prov)]
+            conds += [x for _, _, x in guards_of(f, bi, prov)]
+            ok = None
+            for cnd in conds:
+                has_len = any(x[0] == 'len' or (x[0] == 'call' and x[1].split('::')[-1] == 'len') for x in expr_walk(cnd))
+                has_pos = any(x[0] == 'call' and x[1].split('::')[-1] == 'pos' for x in expr_walk(cnd))
+                has_cnt = any(x[0] == 'param' for x in expr_walk(cnd))
+                nc = norm_cmp(cnd, True) if cnd[0] in ('bin', 'un') else None
+                if has_len and has_pos and has_cnt and nc and nc[0] in ('Lt', 'Le'):
+                    ok = cnd
+            if ok is not None:
+                ctx.ok(key, f.loc(bi), 'taken only when %s' % expr_str(ok)[:120])
+            else:
+                ctx.violation(key, f.loc(bi), 'the assembly path %s is entered without checking that the bytes it can consume are left in '
+                              'the buffer: at the end of a truncated chunk it re-reads the last byte and clamps the position, the '
+                              'portable path reads zero and overruns; the two builds then fail differently (or one accepts)' % g.key)
+    if n == 0:
+        ctx.anchor_missing('dispatch to a clamping assembly path')
